@@ -117,23 +117,24 @@ Theorem C18_const_phase_target_angle (p : R) (ss : list R) (vals : list (R * R))
 Proof. exact (const_phase_target_angle p ss vals dur alpha ops). Qed.
 Print Assumptions C18_const_phase_target_angle.
 
-(* (6) estimate_inverse on the constant-phase branch, on (0, 180) degree *)
+(* (6) estimate_inverse on the constant-phase branch, on the CLOSED interval [0, 180] degree
+   (estimate_alpha = acos(clip(Z)) after fix 4cedc70; rf = 0 and the inversion pulse included) *)
 Theorem C18_estimate_alpha_of_rf (p : R) (ss : list R) (vals : list (R * R)) (alpha : R) :
-  Forall2 (cp_sample p) ss vals -> rsum ss <> 0 -> 0 < alpha < 180 ->
+  Forall2 (cp_sample p) ss vals -> rsum ss <> 0 -> 0 <= alpha <= 180 ->
   estimate_alpha vals (estimate_rf vals alpha) = alpha.
 Proof. exact (estimate_alpha_of_rf p ss vals alpha). Qed.
 Print Assumptions C18_estimate_alpha_of_rf.
 
 Theorem C18_estimate_rf_of_alpha (p : R) (ss : list R) (vals : list (R * R)) (rf : R) :
-  Forall2 (cp_sample p) ss vals -> 0 < rf * Rabs (rsum ss) < 1 ->
+  Forall2 (cp_sample p) ss vals -> rsum ss <> 0 -> 0 <= rf * Rabs (rsum ss) <= 1 ->
   estimate_rf vals (estimate_alpha vals rf) = rf.
 Proof. exact (estimate_rf_of_alpha p ss vals rf). Qed.
 Print Assumptions C18_estimate_rf_of_alpha.
 
-(* (6b) the boundary: the faithful model of estimate_alpha answers -180 (not 0) for a zero pulse, any waveform *)
-Theorem C18_estimate_alpha_zero_rf_refuted (vals : list (R * R)) : estimate_alpha vals 0 = -180.
+(* (6b) a zero pulse is reported as 0 degree, for every waveform (constant phase or not) *)
+Theorem C18_estimate_alpha_zero_rf (vals : list (R * R)) : estimate_alpha vals 0 = 0.
 Proof. exact (estimate_alpha_zero_rf vals). Qed.
-Print Assumptions C18_estimate_alpha_zero_rf_refuted.
+Print Assumptions C18_estimate_alpha_zero_rf.
 
 (* (7) encode_phase_is_modify: encode_phase is modify() with g = the frequency map (plus the optional rewinder) *)
 Theorem C18_encode_phase_is_modify (N : NumOps) (ops : list (pop N)) (D grad gamma x : N) (rw : option N) :
